@@ -221,6 +221,7 @@ func runCheck(root, prop, tier string, makeBaseline, verbose, keep bool, onlyFn 
 	for _, k := range base.Undecided {
 		undec[k] = true
 	}
+	baselineUndecided = undec
 	known := loadKnown(root)
 	byBackend := map[string]int{}
 	solverTime := 0.0
@@ -439,6 +440,11 @@ func runCheck(root, prop, tier string, makeBaseline, verbose, keep bool, onlyFn 
 	if toolErr && exit == 0 {
 		return 2
 	}
+	if len(binding) > 0 && exit == 0 {
+		// a contract could not be brought to bear on the code: nothing was
+		// decided for that function (never the case on the pinned tree)
+		return 2
+	}
 	return exit
 }
 
@@ -492,7 +498,7 @@ func writeReplay(eng *Engine, dir, prop string, o *Obligation) (string, bool) {
 	}
 	rec["solver_outputs"] = outs
 	replayed := false
-	searchable := o.queryFile != "" && (o.Kind == "post" || o.Kind == "bounds" || o.Kind == "nil" || o.Kind == "div" || o.Kind == "panic" || o.Kind == "pre-panic" || o.Kind == "conv")
+	searchable := o.queryFile != "" && (o.Kind == "post" || o.Kind == "bounds" || o.Kind == "nil" || o.Kind == "div" || o.Kind == "panic" || o.Kind == "pre-panic" || o.Kind == "conv" || o.Kind == "assert")
 	origQuery := o.queryFile
 	seed := int64(1)
 	if s := os.Getenv("VERIF_SEED"); s != "" {
@@ -585,7 +591,10 @@ func boundedSearch(eng *Engine, fn *ssa.Function, con *Contract, work, replayDir
 			continue
 		}
 		switch o.Kind {
-		case "post", "bounds", "nil", "div", "panic", "pre-panic", "conv":
+		case "post", "bounds", "nil", "div", "panic", "pre-panic", "conv", "assert":
+			if baselineUndecided[o.Key] {
+				continue // not part of the claim on the pinned tree either
+			}
 			o.Key += "/bounded"
 			cand = append(cand, o)
 		}
@@ -603,12 +612,15 @@ func boundedSearch(eng *Engine, fn *ssa.Function, con *Contract, work, replayDir
 			done[con.Key] = path
 			return path, true
 		}
-		if o.Kind == "post" && replayVerdict[path] == "inconclusive" && boundedCandidate[con.Key] == "" {
+		if (o.Kind == "post" || o.Kind == "assert") && replayVerdict[path] == "inconclusive" && boundedCandidate[con.Key] == "" {
 			boundedCandidate[con.Key] = path
 		}
 	}
 	return "", false
 }
+
+// baselineUndecided: obligations that do not discharge on the pinned tree.
+var baselineUndecided = map[string]bool{}
 
 // replayVerdict: replay record path -> confirmed | contradicted | inconclusive.
 var replayVerdict = map[string]string{}
